@@ -224,11 +224,13 @@ CHECKS['C02'] = dict(
          "arguments are refuted by witnesses (recorded finding, confirmed on the built module). The ARITY TABLE (map_sets filled per accepted argument count, collapse_default_remaps, the "
          "switch on parameter_count) is modelled too and proved exact: for every set of overloads with any ranges of accepted counts and every count, the overloads the generated code can "
          "run are exactly those that take that count (the assignment written the other way round is refuted); the table of every overloaded wrapper is read back from the generated code "
-         "and compared with the extracted one. Correspondence/specification by EXECUTION: generated libraries are wrapped, compiled "
+         "and compared with the extracted one. CONST and non-const members in one set are modelled with RemapCompareLess in full (non-const first, more parameters first, then ranks) and the "
+         "emitted const guard: sorting any mix of arities and constness yields a valid order, and the member that corresponds exactly to the arguments and is callable on the object "
+         "runs whenever the C++ call is well defined; const members first is refuted. Correspondence/specification by EXECUTION: generated libraries are wrapped, compiled "
          "into an extension module and imported in CPython: names and camelCase aliases, exact-category overload calls, derived instances for base parameters, defaults and keywords, "
          "properties, sequences, operators, enums, integer boundaries of five widths (OverflowError beyond), TypeError with state unchanged, live-object counts for returned copies and "
          "borrowed pointers, zero live objects at exit, const/non-const pairs on const and non-const objects, defaulted overloads sharing their lowest arity with a sibling.",
-    note=TB + "the 9000-line generator is not modelled beyond the arity table, the dispatch order and the acceptance relation (the const-first rule of RemapCompareLess is tested, not modelled); no sanitizer inside the interpreter (memory errors show as crashes or wrong object "
+    note=TB + "the 9000-line generator is not modelled beyond the arity table, the dispatch order and the acceptance relation (coercion passes are not modelled); no sanitizer inside the interpreter (memory errors show as crashes or wrong object "
          "counts); built against harness/shims register_type.h and dconfig.h.",
     technique="Coq proof (first-accepting dispatch over the sorted overload list selects the exactly matching overload; sort order lemma; the collapsed arity table is exact; refuting witnesses) + generated switch read back against the extracted table + execution of the built extension module against expected outcomes and the extracted dispatcher",
     ref="5/C02")
